@@ -17,7 +17,7 @@ from vlib.models import gtmodel
 MONITORS = {
     'ledger': Mon.Ledger, 'c26': Mon.C26Pool, 'c09': Mon.C09Lifecycle,
     'c07': Mon.C07Bounds, 'c02': Mon.C02Once, 'c10': Mon.C10Messages,
-    'c01': Mon.C01Graph, 'end': Mon.EndState,
+    'c01': Mon.C01Graph, 'end': Mon.EndState, 'stopw': Mon.StopWatch,
     'c03': Mon2.C03Progress, 'c04': Mon2.C04Runahead, 'c05': Mon2.C05Queues,
     'c11': Mon2.C11Retention, 'c31': Mon2.C31Sequential,
     'rsnap': Mon2.RestartSnap, 'c06': Mon2.C06Hold, 'c08': Mon2.C08Flows,
